@@ -375,6 +375,12 @@ func runC13(c *eng.Ctx) {
 		c.Unresolved("delete(p.consumers, …)")
 	}
 	c.Floor(1)
+	// ---- extensions from round 3
+	c.Rule("R13.4", "K1")
+	ruleIdentityCheckAndDeleteAtomic(c)
+	c.Rule("R13.1", "K4")
+	ruleConsumersTableNeverReset(c)
+
 }
 
 func isPrevSubscriber(v ssa.Value) bool {
